@@ -131,6 +131,23 @@ def check_cell(cell):
             continue
         structural(out, tag, o.value.serialized_bytes, o.value)
         parse_and_compare(out, tag, o.value.serialized_bytes, ref)
+    # a local part of section 2 that stops inside an octet (the encoder takes it as a bit string of any length): the section is
+    # zero-padded to whole octets like any other, and the message is the one with the padded local part
+    if s2 is not None:
+        for extra in ('1', '101', '0000001', '1' * 13):
+            fj = encutil.flat_json_of_case(case)
+            fj[2][2] = fj[2][2] + extra
+            padded = fj[2][2] + '0' * (-len(fj[2][2]) % 8)
+            meta2 = dict(case.meta, section2=bytes(int(padded[i:i + 8], 2) for i in range(0, len(padded), 8)))
+            exp = frame.build(meta2, case.ids, case.data_bits)[0]
+            tag = 'section 2 local part of %d bits' % len(fj[2][2])
+            o = sut.call(encoder(False).process, fj)
+            n_enc += 1
+            if not o.ok:
+                out.fail('encoder raised %s@%s [%s]' % (o.exc_type, o.frame, tag), **ctx(error=o.msg))
+                continue
+            structural(out, tag, o.value.serialized_bytes, o.value)
+            parse_and_compare(out, tag, o.value.serialized_bytes, exp)
     # honour mode
     real = dict(case.info['lengths'])
     for k in sections_of(case):
@@ -186,12 +203,16 @@ def check_cell(cell):
 
 # ---- decoder side: surplus octets, trailing bytes, shortened sections -----------------------------
 class FrameCase(object):
-    def __init__(self, case, surplus, tail, shorten, lead=b''):
+    def __init__(self, case, surplus, tail, shorten, lead=b'', total_delta=0):
         self.case, self.surplus, self.tail, self.shorten, self.lead = case, surplus, tail, shorten, lead
+        self.total_delta = total_delta     # the total length of section 0 declared this much off the real extent
         self.bytes, self.info = frame.build(case.meta, case.ids, case.data_bits, surplus=surplus)
+        if total_delta:
+            self.bytes, self.info = frame.build(case.meta, case.ids, case.data_bits, surplus=surplus,
+                                                declared_total=len(self.bytes) + total_delta)
 
     def key(self):
-        return hashlib.sha1(self.lead + self.bytes + self.tail + repr(self.shorten).encode()).hexdigest()[:20]
+        return hashlib.sha1(self.lead + self.bytes + self.tail + repr((self.shorten, self.total_delta)).encode()).hexdigest()[:20]
 
     def summary(self):
         return {'edition': self.case.meta['edition'], 'section2': self.case.meta.get('section2') is not None,
@@ -200,12 +221,12 @@ class FrameCase(object):
 
     def to_json(self):
         return {'case': self.case.to_json(), 'surplus': {str(k): v for k, v in self.surplus.items()}, 'tail': self.tail.hex(),
-                'shorten': self.shorten, 'lead': self.lead.hex()}
+                'shorten': self.shorten, 'lead': self.lead.hex(), 'total_delta': self.total_delta}
 
     @staticmethod
     def from_json(d):
         return FrameCase(gmsg.Case.from_json(d['case']), {int(k): v for k, v in d['surplus'].items()}, bytes.fromhex(d['tail']),
-                         d.get('shorten'), bytes.fromhex(d.get('lead', '')))
+                         d.get('shorten'), bytes.fromhex(d.get('lead', '')), d.get('total_delta', 0))
 
 
 TAILS = [b'', b'\x00\x00', b'7777', b'BUFR', b'BUF', b'\xff\xfe\xfd', b'7777BUFR\x00\x00\x20\x04']
@@ -237,7 +258,10 @@ def gen_frame(ch, opts):
         secs = [k for k in (1, 2, 3, 4) if k != 2 or case.meta.get('section2') is not None]
         shorten = [ch.choice(secs), ch.int(1, 3)]
     lead = ch.choice(LEADS) if ch.bool(1, 3) else b''
-    return FrameCase(case, surplus, tail, shorten, lead)
+    # the total length of section 0 declared wrongly: a full decode follows the sections, the message's bytes stay the span
+    # from BUFR to 7777 whatever the total says and whatever follows
+    total_delta = ch.choice([1, 2, 4, 8, 60, -1, -4]) if (shorten is None and ch.bool(1, 5)) else 0
+    return FrameCase(case, surplus, tail, shorten, lead, total_delta)
 
 
 def content_octets(fc, k):
@@ -271,7 +295,9 @@ def check_frame(fc):
     if m.serialized_bytes != b:
         out.fail('serialized_bytes is not exactly the span from BUFR to 7777', n_got=len(m.serialized_bytes), n=len(b),
                  surplus=fc.surplus, tail=fc.tail[:8], lead=fc.lead[:8])
-    if m.length.value != len(b):
+    if fc.total_delta:
+        out.classes.append('declared_total_off')
+    if m.length.value != len(b) + fc.total_delta:
         out.fail('length.value differs from the declared total', got=m.length.value)
     for s in m.sections:
         k = s.get_metadata('index')
@@ -312,6 +338,8 @@ def check_frame(fc):
     if b'7777' in b[:-4]:
         out.classes.append('stop_signature_octets_inside_the_message')
     for kw in ({}, {'info_only': True}):
+        if kw and fc.total_delta:
+            continue            # a metadata-only scan has nothing but the declared total to go by (C17)
         tag = 'scan' + ('/info_only' if kw else '')
         o3 = sut.call(lambda: next(sut.generate_bufr_message(decoder(), fc.lead + b + fc.tail, **kw)))
         if not o3.ok:
@@ -322,7 +350,7 @@ def check_frame(fc):
         if m3.serialized_bytes != b:
             out.fail('%s: serialized_bytes of the delivered message is not exactly the span from BUFR to 7777' % tag,
                      n_got=len(m3.serialized_bytes), n=len(b))
-        if m3.length.value != len(b):
+        if m3.length.value != len(b) + fc.total_delta:
             out.fail('%s: length.value differs from the declared total' % tag, got=m3.length.value)
     if fc.shorten:
         k, d = fc.shorten
